@@ -12,39 +12,36 @@ static inline uint64_t iora_cached_positive(const DnsResult *r) { (void)r; retur
 /* cache_->remove(key) (only present in a repaired DnsCache::put): erases the entry of that key */
 static inline void ExpiringCache_remove_stub(ExpiringCache *c, uint64_t key) { if (key == GKEY) c->_cache.has = false; }
 
-/* witness record: section GSEC (0..11 in declaration order of DnsResult), index GI - both arbitrary.
- * G_wv / G_wttl are ghost NAMES for "the witness exists" and "its TTL": every contract binds them in its requires to exactly
- * that (WITNESS_BOUND). Carrying the bound `min_ttl <= G_wttl` through the loops directly (instead of a chain
- * min_12 <= min_11 <= ... <= ttl) is what makes the proof cheap (measured: chain 150 s for one clause, direct form 10 s). */
-unsigned GSEC; size_t GI; bool G_wv; uint32_t G_wttl;
 /* ghost names for two shapes of a result: no record at all / exactly one answer record and nothing else (bound in WITNESS_BOUND) */
 bool G_empty, G_single;
 #define NSEC 12
 /* a record vector of a parsed message: each section count is a 16-bit field, the typed vectors collect from three sections */
 #define RVEC_MAX ((size_t)3 * 65535)
 
-/* loop k of calculateResultTtl runs over section k-1 */
+/* The scan over section number k (position of the vector in DnsResult; plugin.py maps each loop to TTLSCAN_<vector> by the
+ * vector named in its header, NOT by ordinal). Carrying `min_ttl <= G_wttl` directly (instead of a chain
+ * min_12 <= ... <= min_1 <= ttl) is what makes the proof cheap (measured: chain 150 s for one clause, direct form 22 s total). */
 #define TTL_LOOP(k, vec) IORA_LC( \
   __CPROVER_assigns(iora_i, min_ttl) \
   __CPROVER_loop_invariant(iora_i <= result->vec.n) \
-  /* once the witness record has been passed, the running minimum is <= its TTL */ \
-  __CPROVER_loop_invariant((G_wv && (GSEC < (k) - 1 || (GSEC == (k) - 1 && GI < iora_i))) ==> min_ttl <= G_wttl) \
-  /* exactness for the first record of a section (gives: nothing in any section -> sentinel; a single record -> its TTL) */ \
+  /* the witness record of an earlier section, or of this section once passed, bounds the running minimum */ \
+  __CPROVER_loop_invariant((G_wv && (GSEC < (k) || (GSEC == (k) && GI < iora_i))) ==> min_ttl <= G_wttl) \
+  /* exactness for the first record of a section (gives: nothing anywhere -> sentinel; a single record -> its TTL) */ \
   __CPROVER_loop_invariant(iora_i == 0 ==> min_ttl == __CPROVER_loop_entry(min_ttl)) \
   __CPROVER_loop_invariant(iora_i == 1 ==> min_ttl == IORA_MIN(__CPROVER_loop_entry(min_ttl), result->vec.p[0].ttl)) \
   __CPROVER_decreases(result->vec.n - iora_i))
-#define IORA_LOOP_DnsCache_calculateResultTtl_1 TTL_LOOP(1, answers)
-#define IORA_LOOP_DnsCache_calculateResultTtl_2 TTL_LOOP(2, authority)
-#define IORA_LOOP_DnsCache_calculateResultTtl_3 TTL_LOOP(3, additional)
-#define IORA_LOOP_DnsCache_calculateResultTtl_4 TTL_LOOP(4, a_records)
-#define IORA_LOOP_DnsCache_calculateResultTtl_5 TTL_LOOP(5, aaaa_records)
-#define IORA_LOOP_DnsCache_calculateResultTtl_6 TTL_LOOP(6, srv_records)
-#define IORA_LOOP_DnsCache_calculateResultTtl_7 TTL_LOOP(7, naptr_records)
-#define IORA_LOOP_DnsCache_calculateResultTtl_8 TTL_LOOP(8, cname_records)
-#define IORA_LOOP_DnsCache_calculateResultTtl_9 TTL_LOOP(9, mx_records)
-#define IORA_LOOP_DnsCache_calculateResultTtl_10 TTL_LOOP(10, txt_records)
-#define IORA_LOOP_DnsCache_calculateResultTtl_11 TTL_LOOP(11, ptr_records)
-#define IORA_LOOP_DnsCache_calculateResultTtl_12 TTL_LOOP(12, soa_records)
+#define TTLSCAN_answers TTL_LOOP(0, answers)
+#define TTLSCAN_authority TTL_LOOP(1, authority)
+#define TTLSCAN_additional TTL_LOOP(2, additional)
+#define TTLSCAN_a_records TTL_LOOP(3, a_records)
+#define TTLSCAN_aaaa_records TTL_LOOP(4, aaaa_records)
+#define TTLSCAN_srv_records TTL_LOOP(5, srv_records)
+#define TTLSCAN_naptr_records TTL_LOOP(6, naptr_records)
+#define TTLSCAN_cname_records TTL_LOOP(7, cname_records)
+#define TTLSCAN_mx_records TTL_LOOP(8, mx_records)
+#define TTLSCAN_txt_records TTL_LOOP(9, txt_records)
+#define TTLSCAN_ptr_records TTL_LOOP(10, ptr_records)
+#define TTLSCAN_soa_records TTL_LOOP(11, soa_records)
 
 /* calculateNegativeTtl: loop 1 returns in its first iteration; loop 2 looks for the first SOA of the authority section */
 #define IORA_LOOP_DnsCache_calculateNegativeTtl_1 IORA_LC( \
